@@ -801,6 +801,28 @@ def run(ck):
                "minimal_patch": "Lij: vTK = vacancyThermoKinetics(pre=np.ones_like(bFV), betaene=np.array(bFV), preT=np.ones_like(bFT0), betaeneT=np.array(bFT0))"},
               key="c14-cache-key-aliases-input")
     ck.extra["cache_key_shares_memory_with_input"] = keyalias
+    # ---- 4e. several cache entries created in NON-sorted key order, save/load, then every cached input again
+    for nm in ("rect", "rect-polar2d", "pg4"):
+        pool = pools[nm]
+        d = pool.fresh((1, 4))
+        kids = [(v, 0) for v in (0, 1, 2, 5, 6)]
+        kids.sort(key=lambda k: tuple(np.hstack([pool.input((1, 4), k)[0], pool.input((1, 4), k)[3]]).tolist()), reverse=True)
+        for k in kids: d.Lij(*pool.input((1, 4), k))
+        try:
+            d2 = saveload(d, "o" + nm)
+            nent = (len(d.GFvalues), len(d2.GFvalues))
+            for k in kids:
+                res = d2.Lij(*pool.input((1, 4), k)); ref = pool.reference((1, 4), k)
+                diffs = [float(np.abs(np.asarray(x) - y).max()) for x, y in zip(res, ref)]
+                ck.case(key=("cache-order", nm, k), nontrivial=True, kind="saveload-cached:" + nm)
+                if max(diffs) > TOL or nent[0] != nent[1]:
+                    V("a calculator saved with %d cache entries (created in descending key order) and reloaded (%d entries) returns, at a CACHED input, "
+                      "coefficients different from a fresh calculator (max |diff| per array %s)" % (nent[0], nent[1], diffs),
+                      {"calculator": nm, "crystal": repr(pool.crys), "cutoff": pool.cut, "order_of_evaluation(vTK id, other id)": [list(x) for x in kids], "failing_input": list(k),
+                       "input": [x.tolist() for x in pool.input((1, 4), k)], "diffs": diffs}, key="c14-saveload-cache-pairing")
+                    break
+        except Exception as e:
+            V("save/load of a calculator with several cache entries raises %r" % (e,), {"calculator": nm}, key="c14-history-exception")
     # ---- 5. re-generation probe
     regen_broken = False
     for nm, pool in pools.items():
